@@ -58,6 +58,27 @@ LeafCases ==
       Same(PEI, I64(1), I64(3), "not_in_enum"), Same(PEI, I64(1), Str("a"), "wrong_type"),
       Case(PatternS, Str("a"), Str("["), Re("a"), None, "bad_pattern", ""), Case(PatternS, Str("a"), B(TRUE), Re("a"), Some(B(TRUE)), "wrong_type", ""),
       Same(AnyS, I64(1), Nil, "wrong_type"), Same(AnyS, I64(1), J("ptr"), "wrong_type"),
+      \* numbers with units given a string the unit grammar cannot read
+      RawOnly(IntS(None, None, Some("sec")), Str("1s"), I64(1), Str("1x"), "unit_syntax"),
+      RawOnly(IntS(None, None, Some("sec")), Str("1s"), I64(1), Str("-1s"), "unit_syntax"),
+      RawOnly(IntS(None, None, Some("sec")), Str("1s"), I64(1), Str("#empty"), "unit_syntax"),
+      RawOnly(IntS(None, None, Some("sec")), Str("1s"), I64(1), Str("a"), "unit_syntax"),
+      RawOnly(FloatS(None, None, Some("sec")), Str("1s"), F64(2), Str("1x"), "unit_syntax"),
+      RawOnly(FloatS(None, None, Some("sec")), Str("1s"), F64(2), Str("#empty"), "unit_syntax"),
+      RawOnly(FloatS(None, None, Some("sec")), Str("1s"), F64(2), Str("a"), "unit_syntax"),
+      \* a map key out of bounds / not in the enum: the offending element is the key
+      WithPath(Case(MapS(IntS(Some(1), Some(3), None), PTA, None, None, FALSE), M("any_any", << <<I64(1), I64(1)>> >>),
+                    M("any_any", << <<I64(1), I64(1)>>, <<I64(-2), I64(1)>> >>), M("typed", << <<I64(1), I64(1)>> >>),
+                    Some(M("typed", << <<I64(1), I64(1)>>, <<I64(-2), I64(1)>> >>)), "key_below_min", ""), <<"-2">>),
+      WithPath(Case(MapS(IntS(Some(1), Some(3), None), PTA, None, None, FALSE), M("any_any", << <<I64(1), I64(1)>> >>),
+                    M("any_any", << <<I64(1), I64(1)>>, <<I64(4), I64(1)>> >>), M("typed", << <<I64(1), I64(1)>> >>),
+                    Some(M("typed", << <<I64(1), I64(1)>>, <<I64(4), I64(1)>> >>)), "key_above_max", ""), <<"4">>),
+      WithPath(Case(MapS(EnumIntS(<<1, 2>>, None), PTA, None, None, FALSE), M("any_any", << <<I64(1), I64(1)>> >>),
+                    M("any_any", << <<I64(1), I64(1)>>, <<I64(3), I64(1)>> >>), M("typed", << <<I64(1), I64(1)>> >>),
+                    Some(M("typed", << <<I64(1), I64(1)>>, <<I64(3), I64(1)>> >>)), "key_not_in_enum", ""), <<"3">>),
+      WithPath(Case(MapS(StringS(None, Some(1), None), PTA, None, None, FALSE), M("any_any", << <<Str("a"), I64(1)>> >>),
+                    M("any_any", << <<Str("a"), I64(1)>>, <<Str("ab"), I64(1)>> >>), M("typed", << <<Str("a"), I64(1)>> >>),
+                    Some(M("typed", << <<Str("a"), I64(1)>>, <<Str("ab"), I64(1)>> >>)), "key_above_max", ""), <<"ab">>),
       \* size bounds: the offending element is the collection itself
       Case(ListS(PTA, Some(1), Some(2), FALSE), L("any", <<I64(1)>>), L("any", <<>>), L("typed", <<I64(1)>>), Some(L("typed", <<>>)), "below_min", ""),
       Case(ListS(PTA, Some(1), Some(2), FALSE), L("any", <<I64(1)>>), L("any", <<I64(1), I64(1), I64(2)>>), L("typed", <<I64(1)>>),
@@ -79,7 +100,7 @@ LeafCases ==
                     Obj(<< <<Str("a"), I64(1)>> >>), Some(Obj(<< <<Str("a"), I64(3)>> >>)), "above_max", ""), <<"a">>) }
 
 \* ------------------------------------------------------------------ containers on the way
-ContainerKindsOnPath == {"list", "map", "object", "oneof", "struct"}
+ContainerKindsOnPath == {"list", "map", "imap", "emap", "object", "oneof", "struct"}
 NB(c, mk(_)) == IF c.nbad.some THEN Some(mk(c.nbad.v)) ELSE None
 Around(kind, c) ==
     CASE kind = "list" ->       \* the faulty element is the second item: index 1
@@ -92,6 +113,12 @@ Around(kind, c) ==
                 mkn(x) == M("typed", << <<Str("a"), c.ngood>>, <<Str("b"), x>> >>)
             IN [c EXCEPT !.s = MapS(StringS(None, None, None), c.s, None, None, FALSE), !.good = mk(c.good), !.bad = mk(c.bad),
                          !.ngood = mkn(c.ngood), !.nbad = NB(c, mkn), !.path = <<"b">> \o c.path]
+      [] kind \in {"imap", "emap"} ->   \* under the integer key 2 of a map keyed by integers (imap) / an integer enum (emap)
+            LET ks == IF kind = "imap" THEN IntS(Some(1), Some(3), None) ELSE EnumIntS(<<1, 2>>, None)
+                mk(x) == M("any_any", << <<I64(1), c.good>>, <<I("uint64", 2), x>> >>)
+                mkn(x) == M("typed", << <<I64(1), c.ngood>>, <<I64(2), x>> >>)
+            IN [c EXCEPT !.s = MapS(ks, c.s, None, None, FALSE), !.good = mk(c.good), !.bad = mk(c.bad),
+                         !.ngood = mkn(c.ngood), !.nbad = NB(c, mkn), !.path = <<"2">> \o c.path]
       [] kind = "object" ->     \* the property "x" of a map-based object
             LET mk(x) == M("any_any", << <<Str("b"), Str("a")>>, <<Str("x"), x>> >>)
                 mkn(x) == M("string_any", << <<Str("b"), Str("a")>>, <<Str("x"), x>> >>)
@@ -116,12 +143,14 @@ FitsAnyField(s) == s.kind \in {"any", "oneof"} \/ (s.kind = "object" /\ s.layout
 \* struct values: struct-mapped objects are not placed below a one-of here)
 CanWrap(kind, c) == (kind # "struct" \/ FitsAnyField(c.s)) /\ (kind = "oneof" => ~c.st)
 
-RECURSIVE Cases(_)
-\* all cases with at most n containers on the way
-Cases(n) ==
-    IF n = 0 THEN LeafCases
-    ELSE LET inner == Cases(n - 1) IN
-         inner \cup {Around(p[1], p[2]) : p \in {q \in ContainerKindsOnPath \X inner : CanWrap(q[1], q[2])}}
+\* the case a leaf becomes below the containers ks (outermost first); ok = FALSE where a container cannot
+\* hold what is below it
+RECURSIVE Nest(_, _)
+Nest(ks, leaf) ==
+    IF Len(ks) = 0 THEN [ok |-> TRUE, c |-> leaf]
+    ELSE LET inner == Nest(Tail(ks), leaf) IN
+         IF inner.ok /\ CanWrap(Head(ks), inner.c) THEN [ok |-> TRUE, c |-> Around(Head(ks), inner.c)] ELSE [ok |-> FALSE]
+KindSeqs(n) == UNION {[1..m -> ContainerKindsOnPath] : m \in 0..n}
 ExpectedPath(c) == c.path
 
 \* ------------------------------------------------------------------ on the model
